@@ -95,6 +95,7 @@ type Exec struct {
 	syncObjs map[*Object]*syncState
 	guards   []guardDecl
 	raceObjs []*Object
+	noModels []string
 	raceStep int64
 	raceThread int
 	lockHeld map[*Object]int // mutex object -> owning thread id (for discipline checks)
